@@ -178,6 +178,29 @@ def selExprs (s : Select) : List SExpr :=
 def stmtUnknownFns (st : Statement) : List Bytes :=
   (((stmtSelects st).flatMap selExprs).flatMap unknownFns).eraseDups
 
+mutual
+/-- placeholder tokens (`$1`, `?`, `{p:Int32}`) in an expression -/
+def paramsIn : SExpr → List Bytes
+  | .param t => [t]
+  | .call _ _ args fl => paramsInL args ++ paramsIn fl
+  | .case_ a b c => paramsIn a ++ paramsIn b ++ paramsIn c
+  | .neg x => paramsIn x
+  | .pos x => paramsIn x
+  | .not_ x => paramsIn x
+  | .bin _ x y => paramsIn x ++ paramsIn y
+  | .isNull x _ => paramsIn x
+  | .inList x vs => paramsIn x ++ paramsInL vs
+  | .index x i => paramsIn x ++ paramsIn i
+  | _ => []
+def paramsInL : SExprList → List Bytes
+  | .nil => []
+  | .cons e es => paramsIn e ++ paramsInL es
+end
+
+/-- the distinct placeholders a statement mentions -/
+def stmtParams (st : Statement) : List Bytes :=
+  (((stmtSelects st).flatMap selExprs).flatMap paramsIn).eraseDups
+
 /-- the two statements use the same uninterpreted function symbols: only then does a different result of the
     reference evaluator say anything (a rewrite INTO a dialect function the evaluator does not know cannot be judged) -/
 def comparable (got want : Statement) : Bool :=
@@ -187,6 +210,9 @@ def comparable (got want : Statement) : Bool :=
 /-- the seed of a synthesised database on which the two statements evaluate differently, if one of the first
     `n` has that effect -/
 def differOn (n : Nat) (got want : Statement) : Option Nat :=
+  -- a placeholder one statement mentions and the other does not: they cannot mean the same for every binding
+  let pg := stmtParams got; let pw := stmtParams want
+  if !(pg.all pw.contains && pw.all pg.contains) then some 0 else
   if !comparable got want then none else
   let got := canonStmt got
   let want := canonStmt want
